@@ -1,6 +1,6 @@
 """C12 — overlap predicates agree with exact interval arithmetic."""
 import z3
-from props.common import new_verifier
+from props.common import new_verifier, opaque_geometry_specs
 from pyvc.ann import make_resolver
 from pyvc.values import Tup, Num, opaque_sort
 
@@ -31,7 +31,7 @@ def run(s):
     L("canary_always_false", dict(a=T2, b=T2), expect="sat")
     # geometry-level predicates: geometries opaque, compute_bounds under its C05 contract
     v.load_contracts("contracts.geometry")
-    v.handlers["contracts.geometry.bounds_of"] = opaque_bounds
+    opaque_geometry_specs(v)
     v.ann_resolver = make_resolver(v.repo)
     v.use("ComputeBounds")
     for cn in ("HaveTemporalOverlap", "HaveFrequencyOverlap", "IsInClip"):
